@@ -259,7 +259,7 @@ Proof.
   local_cases H; rewrite ?Epc in *; cbn [hpc] in Hh;
     rewrite ?after_resolve_nc by assumption;
     rewrite ?do_release_hold by (rewrite Hh; first [reflexivity | cbn; apply Hso; reflexivity]);
-    cbn [e_self e_edge E Esem set_pc set_pc_hold set_pc_slots set_pc_obj set_pc_pub leave_resolve
+    cbn [e_self e_edge E Esem set_pc set_pc_hold set_pc_slots set_pc_obj set_pc_pub set_pc_disc leave_resolve
          tpc tslots tacc tkey nocyc_pc nocyc_res stored val_of] in *.
   all: try (specialize (Hmo _ (or_intror eq_refl)); discriminate).
   all: try match goal with Hb : panics_at _ _ _ _ = true |- _ => rewrite (panics_at_false w Hnp) in Hb; discriminate end.
